@@ -185,6 +185,27 @@ def matLinesNZ (s : Sol) : List Str :=
 /-- the text after dropping all-zero matrix lines -/
 def renderDropZero (s : Sol) : List Str := renderWith s (matBlockOf s (matLinesNZ s))
 
+
+/-! ## the layout `remove_velocity_sinex` writes: upper-case exponent, blank-terminated values -/
+
+/-- one matrix line in that layout (`vals` non-empty, at most three padded values) -/
+def velStyleLine (p1 : Str) (j : Nat) (vals : List Str) : Str :=
+  match vals with
+  | [a] => ' ' :: p1 ++ ' ' :: fmt5d (j : Int) ++ ' ' :: upper a ++ [' '] ++ [' ']
+  | [a, b] => ' ' :: p1 ++ ' ' :: fmt5d (j : Int) ++ ' ' :: upper a ++ [' '] ++ upper b ++ [' '] ++ [' ']
+  | a :: b :: c :: _ =>
+    ' ' :: p1 ++ ' ' :: fmt5d (j : Int) ++ ' ' :: upper a ++ [' '] ++ upper b ++ [' '] ++ upper c ++ [' ']
+  | [] => []
+
+def matLinesVelStyle (s : Sol) : List Str :=
+  (List.range s.n).flatMap (fun i =>
+    let vals := (rowToks s.tri s.mat s.n i).map padTok
+    (List.range ((vals.length + 2) / 3)).map (fun c =>
+      velStyleLine (fmt5d ((i + 1 : Nat) : Int)) (rowStart s.tri i + 3 * c) ((vals.drop (3 * c)).take 3)))
+
+/-- the solution in the layout written by `remove_velocity_sinex` -/
+def renderVelStyle (s : Sol) : List Str := renderWith s (matBlockOf s (matLinesVelStyle s))
+
 /-! ## well-formedness (decidable) -/
 
 def noWs (t : Str) : Bool := !t.isEmpty && t.all (fun c => !isSpace c)
@@ -225,10 +246,9 @@ def blockName (r : Str) : Str := r.takeWhile (fun c => c != ' ')
 def blocksClosedAux : Option Str → List Str → Bool
   | o, [] => o.isNone
   | o, l :: ls =>
-    match l with
-    | '+' :: r => o.isNone && blocksClosedAux (some (blockName r)) ls
-    | '-' :: r => (o == some r) && blocksClosedAux none ls
-    | _ => blocksClosedAux o ls
+    if l.head? == some '+' then o.isNone && blocksClosedAux (some (blockName l.tail)) ls
+    else if l.head? == some '-' then (o == some l.tail) && blocksClosedAux none ls
+    else blocksClosedAux o ls
 
 /-- `YY:DDD:SSSSS` with decimal digits and seconds `00000 … 86399` -/
 def isStampText (t : Str) : Bool :=
